@@ -563,6 +563,7 @@ class Engine:
 
     def do_call(self, st, act, name, args, dsts, sig):
         env = act.env
+        name = {'%Memcpy': 'memcpy', '%Memmove': 'memmove', '%Memset': 'memset'}.get(name, name)
         fn = self.m.funcs.get(name)
         short = fn.pretty.split('::', 1)[-1] if fn is not None and fn.pretty else name
         if fn is not None and short not in self.event_funcs:
@@ -571,6 +572,30 @@ class Engine:
             return ('exit', simp(args[0]))
         if name == 'abort' and fn is None:
             return ('trap',)
+        if fn is None and name in ('memcpy', 'memmove', 'memset'):
+            # libc block operations with a concrete length, executed on the flat memory
+            n = const_of(args[2])
+            if n is None or n > 4096:
+                raise Unsupported('%s with a symbolic or very large length' % name)
+            dst = simp(args[0])
+            if name == 'memset':
+                byte = simp(z3.Extract(7, 0, args[1]))
+                data = [byte] * n
+            else:
+                src = simp(args[1])
+                data = [simp(z3.Select(st.mem, src + k)) for k in range(n)]
+                if self.track_loads:
+                    st.loads.append((src, n, act.f.name, name))
+            if n:
+                st.stores.append((dst, n, act.f.name, name))
+                self.check_addr(st, dst, n, act, name)
+            m = st.mem
+            for k in range(n):
+                m = z3.Store(m, simp(dst + k), data[k])
+            st.mem = m
+            if dsts:
+                env[dsts[0]] = dst
+            return None
         evname = short if fn is not None else name
         st.events.append((evname, [simp(a) for a in args]))
         rets = sig[1]
